@@ -25,8 +25,11 @@ def run(tier, seed, replay):
         return v.finish()
 
     # (1) design: two sessions, timers, init failures, every interleaving with the five Stop steps; liveness under fairness
-    d, dc = udprelay.model(dict(Sess='{"s1","s2"}', Targets='{"ip","rej"}', Domains="{}", MaxSend=2, ChanCap=1, MaxReply=1, MaxTimer=1 if not big else 2),
-                           props=True, timeout=3000)
+    d, dc = udprelay.model(dict(Sess='{"s1","s2"}', Targets='{"ip","rej"}', Domains="{}", MaxSend=1 if not big else 2, ChanCap=1, MaxReply=1,
+                                MaxTimer=1 if not big else 2), props=True, timeout=3000)
+    d1, _ = udprelay.model(dict(Sess='{"s1"}', Targets='{"a","ip","rej"}', Domains='{"a"}', MaxSend=2, ChanCap=2, MaxReply=1, MaxTimer=1), props=True, timeout=3000)
+    if d1.violation:
+        raise vlib.Broken("design spec (one session) violates %s\n%s" % (d1.violation, d1.out[-1500:]))
     if d.violation:
         raise vlib.Broken("design spec violates %s with the repaired structure (RearmGuard): the model is wrong\n%s" % (d.violation, d.out[-1500:]))
     v.coverage["states"], v.coverage["transitions"] = d.distinct, d.generated
@@ -65,13 +68,13 @@ def run(tier, seed, replay):
     paths3, _ = graph3.cover(seed=seed, max_len=40, prefer=lambda e: e[1]["n"] == "TimerFire")
     withtimer = [p for p in paths3 if any(graph3.edges[i][1]["n"] == "TimerFire" for i in p)]
     withtimer = withtimer[:48 if not big else 400]
-    tvars = [{"server": "socks5", "batchMode": "no", "natTimeout": "1s"}]
+    tvars = [{"server": "socks5", "batchMode": "no", "natTimeout": "2s"}]
     n3, s3, d3 = udprelay.replay(v, binary, [graph3.behaviour(p) for p in withtimer], tvars, seed, "eviction replay", procs=16)
     g4, _ = udprelay.model(dict(Sess='{"s1"}', Targets='{"ip"}', Domains="{}", MaxSend=1, ChanCap=1, MaxReply=1, MaxTimer=1), props=False, edges=True)
     graph4 = udprelay.urgent_filter(vlib.Graph(g4))
     paths4, _ = graph4.cover(seed=seed, max_len=40)
     wt4 = [p for p in paths4 if any(graph4.edges[i][1]["n"] == "TimerFire" for i in p)][:16 if not big else 200]
-    n4, s4, d4 = udprelay.replay(v, binary, [graph4.behaviour(p) for p in wt4], [{"server": "socks5", "batchMode": "sendmmsg", "natTimeout": "1s"}], seed, "eviction replay")
+    n4, s4, d4 = udprelay.replay(v, binary, [graph4.behaviour(p) for p in wt4], [{"server": "socks5", "batchMode": "sendmmsg", "natTimeout": "2s"}], seed, "eviction replay")
     n3, s3, d3 = n3 + n4, s3 + s4, max(d3, d4)
     v.coverage["traces_validated_against_impl"] = n1 + n3
     v.coverage["replayed_steps"] = s1 + s3
